@@ -980,7 +980,7 @@ class World:
                 return True
         iface = dst.supervisor_rpc if ns == 'supervisor' else dst.supvisors_rpc
         for m in self.monitors:
-            m.on_rpc_begin(src, dst, name, wire_args)
+            getattr(m, 'on_rpc_begin', _noop)(src, dst, name, wire_args)
         with self.as_current(dst):
             try:
                 if name == 'supvisors.start_args':
@@ -1011,10 +1011,10 @@ class World:
     def user_rpc(self, inst: SimInstance, ns: str, method: str, args: tuple):
         """An XML-RPC issued by the (generated) user on ``inst``."""
         for m in self.monitors:
-            m.on_user_rpc_begin(inst, f'{ns}.{method}', args)
+            getattr(m, 'on_user_rpc_begin', _noop)(inst, f'{ns}.{method}', args)
         out = self._user_rpc(inst, ns, method, args)
         for m in self.monitors:
-            m.on_user_rpc(inst, f'{ns}.{method}', args, out)
+            getattr(m, 'on_user_rpc', _noop)(inst, f'{ns}.{method}', args, out)
         return out
 
     def _user_rpc(self, inst: SimInstance, ns: str, method: str, args: tuple):
@@ -1120,6 +1120,10 @@ class World:
     def run(self, seconds: int) -> None:
         for _ in range(seconds):
             self.advance()
+
+
+def _noop(*args, **kwargs):
+    return None
 
 
 class Monitor:
